@@ -1,6 +1,7 @@
 package profiles
 
 import (
+	"encoding/json"
 	"fmt"
 	"sort"
 	"strings"
@@ -46,7 +47,12 @@ type C08Scenario struct {
 	harness.Meta
 	Static  []Update `json:"static,omitempty"` // bootstrap: kind=static uses Svc, CfgID, Added
 	History []Update `json:"history"`
-	Tasks   int      `json:"tasks,omitempty"` // >1: updates of different streams are delivered by separate tasks (dependency / config / endpoint streams)
+	// Concurrent: the three discovery streams (dependencies, configurations, endpoints) are delivered by three tasks at
+	// the same time, each in its own order, as the three stream goroutines of the discovery client do. The order in
+	// which the store applies updates of different streams is then a schedule; the reference is the store's own final
+	// state (public JSON view), which the processors must equal after the drain.
+	Concurrent bool `json:"concurrent,omitempty"`
+	Tasks      int  `json:"tasks,omitempty"` // >1: updates of different streams are delivered by separate tasks (dependency / config / endpoint streams)
 	// LateController: the controller's event loop only starts once the store cannot make progress without it
 	// (event channel full) or has accepted the whole history
 	LateController bool `json:"late_controller,omitempty"`
@@ -89,7 +95,7 @@ func mkCfg(u Update, svc int) *service.Config {
 func genEPs(r *simhook.Rand, naddr, max int) []EP {
 	var out []EP
 	for i := 0; i < r.Intn(max+1); i++ {
-		out = append(out, EP{Addr: r.Intn(naddr)})
+		out = append(out, EP{Addr: r.Intn(naddr), Backup: r.Chance(1, 3)})
 	}
 	return out
 }
@@ -140,6 +146,13 @@ func (p c08) Gen(r *simhook.Rand, tier string, idx int) harness.Scenario {
 	}
 	if r.Chance(1, 2) {
 		sc.Tasks = 3
+	}
+	if r.Chance(1, 4) {
+		sc.Concurrent = true
+		sc.Class = "concurrent-streams"
+		for i := range sc.History {
+			sc.History[i].Invalid = false // what an invalid configuration means next to racing updates is not specified
+		}
 	}
 	if r.Chance(1, 4) {
 		// class "slow-controller": a long, order-sensitive history (the same endpoints added and removed again and
@@ -362,6 +375,25 @@ func (p c08) Run(t *testing.T, s harness.Scenario) harness.Outcome {
 			// the history is one sequence: it is delivered in order.  With Tasks > 1 consecutive updates are
 			// handed to different tasks, but each waits for its predecessor, so that only the store's and the
 			// controller's relative speed varies, not the history
+			if sc.Concurrent {
+				streams := map[string][]Update{}
+				for _, u := range sc.History {
+					k := u.Kind
+					if k == "dep-remove" {
+						k = "dep-add"
+					}
+					streams[k] = append(streams[k], u)
+				}
+				for _, k := range []string{"dep-add", "config", "endpoints"} {
+					us := streams[k]
+					tw.Go("harness:stream-"+k, func() {
+						for _, u := range us {
+							deliver(u)
+						}
+					})
+				}
+				return
+			}
 			for _, u := range sc.History {
 				deliver(u)
 			}
@@ -389,6 +421,12 @@ func (p c08) Run(t *testing.T, s harness.Scenario) harness.Outcome {
 		}
 		judged = true
 		want := foldHistory(sc)
+		if sc.Concurrent {
+			var err error
+			if want, err = storeView(cfgStore); err != nil {
+				return &simrt.Violation{Clause: "harness-build", Detail: "cannot read the store's JSON view: " + err.Error()}
+			}
+		}
 		// every service of the model
 		names := map[string]bool{}
 		for i := range want {
@@ -469,6 +507,47 @@ func (p c08) Run(t *testing.T, s harness.Scenario) harness.Outcome {
 		}
 	}
 	return harness.Outcome{Res: res, Faults: map[string]int{}, Nontrivial: judged && len(sc.History) >= 4 && both}
+}
+
+// storeView reads the configuration store through its public JSON view (what the admin API serves).
+func storeView(c *config.Config) (map[int]*mSvc, error) {
+	b, err := json.Marshal(c)
+	if err != nil {
+		return nil, err
+	}
+	var v struct {
+		Services map[string]struct {
+			Name      string              `json:"name"`
+			Config    *service.Config     `json:"config"`
+			Endpoints []*service.Endpoint `json:"endpoints"`
+		} `json:"services"`
+	}
+	if err := json.Unmarshal(b, &v); err != nil {
+		return nil, err
+	}
+	out := map[int]*mSvc{}
+	for name, sv := range v.Services {
+		var idx int
+		if _, err := fmt.Sscanf(name, "dep-%d", &idx); err != nil {
+			continue // the harness's own static service
+		}
+		m := &mSvc{eps: map[int]bool{}, epBackup: map[int]bool{}, known: sv.Endpoints != nil}
+		if sv.Config != nil {
+			u := &Update{Invalid: sv.Config.Validate() != nil}
+			if ct := sv.Config.GetConnectTimeout(); ct != nil {
+				u.CfgID = int(*ct/time.Millisecond) - 1
+			}
+			m.cfg = u
+		}
+		for _, e := range sv.Endpoints {
+			var a int
+			fmt.Sscanf(e.Address.Ip, "10.3.0.%d", &a)
+			m.eps[a-1] = true
+			m.epBackup[a-1] = e.Type == service.Endpoint_BACKUP
+		}
+		out[idx] = m
+	}
+	return out, nil
 }
 
 type c08World struct {
